@@ -24,7 +24,7 @@ from gunicorn.workers.sync import SyncWorker
 from gunicorn.workers.gthread import ThreadWorker, TConn
 from gunicorn.workers.base_async import AsyncWorker
 
-SCRATCH = os.path.join(os.environ.get("VERIF_HOME", "/verif"), "out", "tmp")
+SCRATCH = os.path.join(os.environ.get("VERIF_OUT") or os.path.join(os.environ.get("VERIF_HOME", "/verif"), "out"), "tmp")
 os.makedirs(SCRATCH, exist_ok=True)
 
 
